@@ -176,3 +176,161 @@ Example C01_example_predicate :
   /\ P_C01_object m [1;2;3] 1 [(mk_ometa [102] None (Some 3) (Some 3) None [] None (3, 0),
                                  [CallOpen true; CallWrite [1;2;3] true; CallComplete])] = false.
 Proof. vm_compute. repeat split. Qed.
+
+(* ---------------- the session level: Proofs/C01Session.v ----------------
+   Composition of four proved developments for ONE accepted non-empty No-Code object in a No-Code session:
+   (a) the sender's data plane (above: [wire_pkts] = the packets of one uninterrupted transfer on the wire);
+   (b) the sender's FDT content (C10: Model/FdtInst.v [fdt_xml], the document printed by the reference printer);
+   (c) the receiver as a whole (C02_session_fdt_first_delivers: Model/Recv.v recv_run from recv0 / ctx0);
+   (d) the receiver's FDT oracle parse_fdt of Model/Recv.v INSTANTIATED by the function [fdt_oracle] = reference XML
+       parser (Model/Xml.v, inverse of the printer: C10_xml_roundtrip) followed by the extraction of Model/FdtRecv.v
+       (FdtInstance / File accessors, attach_fdt) into the receiver model's fdtinst: per File element the TOI (only
+       its canonical decimal text denotes a TOI, as get_file compares strings), content encoding, the file's own OTI,
+       File::get_transfer_length (Transfer-Length, else Content-Length, else 0), Content-MD5 text, Content-Length,
+       cache_control == NoCache; the instance OTI; Expires in ns.  An attribute that does not deserialize fails
+       the whole parse, as FdtInstance::parse does.
+   Sender ([sender_ok], unfolded in C01_session_statements): session OTI and the object's OTI (per-object override or
+   session default) are No-Code OTIs as oti.rs builds them (oti_wf), session B > 0, no content encoding, FileDesc::new
+   accepts the object (filedesc_accepts of its data-plane configuration [obj_ecfg]), Transfer-Length = |content| > 0,
+   TOI <> 0, Content-Length a u64, publication instant [now] in the NTP era with Expires < 2^32, cache directive
+   times in the era (meta_ok of C10).  The FDT instance is what the sender model publishes for the object: [fdt_doc]
+   = the bytes of fdt_xml cfg complete now [m]; it fits one packet ([doc_fits]: |d| <= E of the session, <= 1 MiB)
+   and travels as [sess_fdt_pkt]: TOI 0, EXT_FDT id, EXT_FTI (session OTI, |d|), no EXT_CENC, EXT_TIME sct or none.
+   The object's packets [obj_wire] are the wire image of one uninterrupted transfer (any window >= 1, last transfer
+   or not, either build profile), with EXT_FTI on every packet (fti = true, Oti::inband_fti) or on none.
+   Receiver ([receiver_ok]): the premises of C02_nocode_recoverable_delivers (builder stores, open and writes succeed,
+   MD5 absent or matching, L <= max cache, <= 4097 blocks) and the instance is not expired on arrival: no expiry
+   check, or (EXT_TIME of the FDT packet, else the receiver's clock) <= Expires  [C01_session_expired_refuted].
+   Conclusion ([session_meta_delivered], unfolded in C01_session_statements):
+   - session_delivered (C02): the calls of the object's writer (toi,0) are open(ok) . write* . complete with the
+     written bytes = content; with receive-once and no Cache-Control:no-cache the whole log is builder/open/writes/
+     complete, the object has left rv_objects, rv_completed = [toi];
+   - the reference parser reads from the document exactly the instance the sender model built, and the oracle
+     returns [sess_inst]: ONE entry with the object's TOI, cenc null, the per-object OTI if configured,
+     Transfer-Length, Content-MD5, Content-Length, the no-cache flag; the session OTI; Expires - every field the
+     receiver model (fdtfile: ff_toi ff_cenc ff_oti ff_tlen ff_md5 ff_clen ff_nocache) carries equals what the
+     sender was given;
+   - METADATA: the receiver model's log records the builder call without its argument (EvBuilder toi ans), so the
+     ObjectMetadata handed to the writer builder is taken from the model of attach_fdt + create_meta
+     (FdtRecv.recv_meta) applied to THAT parsed instance and the object's File element: it succeeds with [rm], and
+     P_C10_meta: rm equals what the sender was given in content location, content length, transfer length,
+     content type, cache directive (or the FDT expiry as a hint), session groups ++ object groups, MD5, the OTI in
+     use, content encoding, ETag - all ten fields of ObjectMetadata; hence, in the vocabulary of the executable
+     predicate, P_C01_object given content 1 [(rm, calls)] = true: one completed copy, byte-exact, with the given
+     metadata.
+   Not covered: an FDT instance of more than one packet or listing several objects, the other FEC schemes, content
+   encodings, the empty object, loss/reordering at session level (C02), flute's own XML serializer/deserializer
+   (quick-xml/serde: validated per instance by C10 on every run; D38 strings are outside). *)
+From FluteV Require Import Model.Xml Model.FdtInst Model.FdtRecv Spec.C10Spec Proofs.AlcProofs Proofs.FdtProofs
+  Proofs.C02Session Proofs.C01Session.
+
+Theorem C01_session_clean_channel_nocode :
+  forall rep raptor_src cfg complete now m content E rcfg nowr id sct,
+  sender_ok cfg now m content -> doc_fits cfg complete now m -> receiver_ok E rcfg nowr sct cfg now m content ->
+  forall (window : nat) (closable debug fti : bool), (1 <= window)%nat ->
+  let '(_, r, cx) := recv_run E fdt_oracle rcfg recv0
+                       (map (fun p => RvPush p nowr)
+                            (sess_fdt_pkt cfg complete now m id sct
+                             :: obj_wire rep raptor_src cfg m window closable debug content fti)) ctx0 in
+  session_meta_delivered cfg complete now m content rcfg r cx.
+Proof. exact session_clean_channel. Qed.
+Print Assumptions C01_session_clean_channel_nocode.
+
+(* the vocabulary of the theorem, unfolded once *)
+Theorem C01_session_statements : forall cfg complete now m content E rcfg nowr sct r cx,
+  (sender_ok cfg now m content <->
+   fec_id (c_oti cfg) = 0 /\ oti_wf (c_oti cfg) /\ 0 < max_sbl (c_oti cfg)
+   /\ fec_id (the_oti (c_oti cfg) m) = 0 /\ oti_wf (the_oti (c_oti cfg) m) /\ m_cenc m = 0
+   /\ filedesc_accepts (mk_ecfg NoCode (esl (the_oti (c_oti cfg) m)) (max_sbl (the_oti (c_oti cfg) m))
+                                (parity (the_oti (c_oti cfg) m)) 1 false (FdtInst.m_tlen m) false) = true
+   /\ FdtInst.m_tlen m = lenN content /\ 0 < FdtInst.m_tlen m /\ m_toi m <> 0 /\ FdtInst.m_clen m < 18446744073709551616
+   /\ time_in_era now /\ spec_expires now (c_dur cfg) < 4294967296 /\ meta_ok cfg now m)
+  /\ (doc_fits cfg complete now m <->
+      lenN_ (bytes_of_str (fdt_xml cfg complete now [m])) <= esl (c_oti cfg)
+      /\ lenN_ (bytes_of_str (fdt_xml cfg complete now [m])) <= 1048576)
+  /\ (receiver_ok E rcfg nowr sct cfg now m content <->
+      writer_accepts E (m_toi m) /\ writes_succeed E (m_toi m)
+      /\ md5_good E content (option_map bytes_of_str (FdtInst.m_md5 m))
+      /\ lenN_ content <= cf_max_cache rcfg
+      /\ nb_blocks_of (mk_roti FNoCode (esl (the_oti (c_oti cfg) m)) (max_sbl (the_oti (c_oti cfg) m))
+                               (parity (the_oti (c_oti cfg) m)) None) (lenN_ content) <= 4097
+      /\ (cf_exp_check rcfg = false
+          \/ (match sct with Some t => t | None => nowr end
+              <= Z.of_N ((spec_expires now (c_dur cfg) - 2208988800) * 1000000) * 1000)%Z))
+  /\ (session_meta_delivered cfg complete now m content rcfg r cx <->
+      session_delivered rcfg (sess_inst cfg now m) content (m_toi m) r cx
+      /\ Xml.parse_fdt (str_of_bytes (fdt_doc cfg complete now m)) = Some (get_fdt_instance cfg complete now [m])
+      /\ fdt_oracle (fdt_doc cfg complete now m) = Some (sess_inst cfg now m)
+      /\ exists rm,
+           recv_meta b64_decode (get_fdt_instance cfg complete now [m]) (to_file_xml (used_oti cfg m) m now) = MOk rm
+           /\ P_C10_meta cfg false now m rm = true
+           /\ ometa_of_rmeta rm = ometa_given cfg now m
+           /\ P_C01_object (ometa_given cfg now m) content 1
+                           [(ometa_of_rmeta rm, calls_of (m_toi m, 0%nat) (c_log cx))] = true).
+Proof. exact session_statements. Qed.
+Print Assumptions C01_session_statements.
+
+(* the oracle on its own: from the printed bytes of ANY abstract instance it returns the extraction of that
+   instance; and for EVERY parsed instance and File element for which flute's attach_fdt + create_meta
+   (FdtRecv.recv_meta) yields the metadata r, the oracle's entry exists and agrees with r on transfer length,
+   content length, MD5, content encoding, no-cache flag and the resolved OTI (file OTI, else instance OTI) *)
+Theorem C01_oracle_reads_printed_instance : forall x, fdt_oracle (bytes_of_str (print_fdt x)) = inst_of_xfdt x.
+Proof. exact oracle_printed. Qed.
+Print Assumptions C01_oracle_reads_printed_instance.
+
+Theorem C01_oracle_entry_agrees_with_writer_meta : forall i f r io,
+  recv_meta b64_decode i f = MOk r -> oti_field (xi_oti i) = Some io ->
+  exists ff, file_entry (expiration_us (xi_expires i)) f = Some ff
+    /\ ff_toi ff = toi_of_str (xf_toi f)
+    /\ ff_cenc ff = cenc_of_N (FdtRecv.r_cenc r)
+    /\ FdtRecv.r_tlen r = Some (ff_tlen ff)
+    /\ ff_clen ff = FdtRecv.r_clen r
+    /\ ff_md5 ff = option_map bytes_of_str (FdtRecv.r_md5 r)
+    /\ ff_nocache ff = match FdtRecv.r_cache r with RNoCache => true | _ => false end
+    /\ match ff_oti ff with Some x => Some x | None => io end
+       = match FdtRecv.r_oti r with Some o => roti_of o | None => None end.
+Proof. exact entry_agrees_with_recv_meta. Qed.
+Print Assumptions C01_oracle_entry_agrees_with_writer_meta.
+
+(* non-vacuity: session OTI No-Code E = 1400 B = 64, groups [G1], FullFDT, validity 3600 s; the 5-byte object of
+   C01_example_wire as TOI 7 with its own OTI (E = 2, B = 2), location with an ampersand, type, MD5, ETag with
+   quotes, group "g<1>", Cache-Control Expires.  The document is real XML from the printer (it starts "<?xml",
+   fits 1400 bytes); the oracle parses it to [sess_inst]; FDT packet + the three packets of the transfer (last
+   transfer without EXT_FTI / carousel with EXT_FTI): every packet accepted, TOI 7 in rv_completed, the log is
+   the delivery; and the metadata computed from the parsed document equals what was given *)
+Example C01_session_example :
+  (lenN_ exs_doc <=? 1400) = true
+  /\ firstn 5 exs_doc = [60; 63; 120; 109; 108]
+  /\ fdt_oracle exs_doc = Some (sess_inst exs_cfg exs_now exs_m)
+  /\ exs_run (exs_pf :: exs_wire true) = ([POk; POk; POk; POk], [], [7], [], exs_log)
+  /\ exs_run (exs_pf :: map (add_fti ex_oti 5) (exs_wire false)) = ([POk; POk; POk; POk], [], [7], [], exs_log)
+  /\ match Xml.parse_fdt (str_of_bytes exs_doc) with
+     | Some x => match xi_files x with
+                 | [f] => match recv_meta b64_decode x f with
+                          | MOk rm => P_C10_meta exs_cfg false exs_now exs_m rm
+                                      && meta_eqb (ometa_given exs_cfg exs_now exs_m) (ometa_of_rmeta rm)
+                          | _ => false
+                          end
+                 | _ => false
+                 end
+     | None => false
+     end = true.
+Proof. vm_compute. repeat split. Qed.
+
+(* the premises are satisfiable: the same session by the theorem, last transfer or not, with or without EXT_FTI *)
+Example C01_session_example_by_theorem : forall closable fti,
+  let '(_, r, cx) := recv_run exs_env fdt_oracle exs_rcfg recv0
+                       (map (fun p => RvPush p exs_nowr)
+                            (sess_fdt_pkt exs_cfg false exs_now exs_m 1 exs_sct
+                             :: obj_wire no_rep no_rsrc exs_cfg exs_m 2 closable true ex_content fti)) ctx0 in
+  session_meta_delivered exs_cfg false exs_now exs_m ex_content exs_rcfg r cx.
+Proof. exact exs_by_theorem. Qed.
+
+(* the expiry premise is needed, with the real document: expiry check on, no EXT_TIME, the receiver's clock one
+   second past Expires: the instance is never attached, the packets stay cached, nothing is delivered; with
+   EXT_TIME before Expires the same packets at the same receiver time are delivered *)
+Example C01_session_expired_refuted :
+  exs_run_at 1700003601000000000%Z (fdt_pkt 1 (nocode_roti exs_session) None exs_doc :: exs_wire true)
+  = ([POk; POk; POk; POk], [7], [], [], [])
+  /\ exs_run_at 1700003601000000000%Z (exs_pf :: exs_wire true) = ([POk; POk; POk; POk], [], [7], [], exs_log).
+Proof. exact exs_expired_refuted. Qed.
